@@ -263,7 +263,13 @@ func (n *NodeGroup) IncreaseSize(delta int64) error {
 	}
 
 	log.WithField("asg", n.id).Infof("Scaling with SetDesiredCapacity strategy")
-	return n.setASGDesiredSize(n.TargetSize() + delta)
+	newSize := n.TargetSize() + delta
+	if err := n.setASGDesiredSize(newSize); err != nil {
+		return err
+	}
+	// keep the cached group in step with the accepted request until the next refresh
+	n.asg.DesiredCapacity = awsapi.Int64(newSize)
+	return nil
 
 }
 
@@ -442,6 +448,7 @@ InstanceReadyLoop:
 			terminate(n, append(instances, batch...))
 			return err
 		}
+		n.asg.DesiredCapacity = awsapi.Int64(n.TargetSize() + int64(len(batch)))
 	}
 
 	// Attach the remainder for instance sets that are not evenly divisible by
@@ -455,6 +462,7 @@ InstanceReadyLoop:
 		terminate(n, instances)
 		return err
 	}
+	n.asg.DesiredCapacity = awsapi.Int64(n.TargetSize() + int64(len(instances)))
 	log.WithField("asg", n.id).Debugf("CurrentSize: %v", n.Size())
 	log.WithField("asg", n.id).Debugf("CurrentTargetSize: %v", n.TargetSize())
 
